@@ -167,7 +167,12 @@ def b_rules(p: Project, rep: Report):
             inside = any(any(x is s for x in ast.walk(ast.Module(body=t.body, type_ignores=[]))) for t in wraps)
             rep.check("B-R2", f"{clsname}.__init__:{nm}:inside-wrapping-try", inside, f"self.{nm} is assigned outside the try that converts ValueError into OFXHeaderError: an invalid {nm.upper()} escapes as a different exception" if not inside else "", hloc(p, s))
             rep.check("B-R2", f"{clsname}.__init__:{nm}:has-validator", nm in vals, f"self.{nm} has no class-level validator: any value is accepted" if nm not in vals else "", hloc(p, s))
-            names = {x.id for x in ast.walk(s.value) if isinstance(x, ast.Name)}
+            sval_ = s.value
+            try:
+                sval_ = Expander(ifn).x(s.value)  # temporaries (`n = version if version else 102; self.version = int(n)`)
+            except Exception:
+                pass
+            names = {x.id for x in ast.walk(sval_) if isinstance(x, ast.Name)}
             ok = nm in names and not (names & (set(pnames) - {nm}))
             rep.check("B-R2", f"{clsname}.__init__:{nm}:from-own-parameter", ok, f"self.{nm} is computed from {sorted(names & set(pnames))}" if not ok else "", hloc(p, s))
             # ... and is validated as given: a text normalised first (case-folded, stripped, padded) makes tokens
